@@ -18,10 +18,13 @@ META = dict(
           "components; absolute values depend on label equality only, ordinal/precomputed ones on the sorted index only. Pipeline level, for every size "
           "vector in the bound, every permutation / renaming of the annotators, all pair values: the optimal disorder is the same term; with every "
           "pair value and delta_empty multiplied by c every disorder is multiplied by c; with the real positional / combined dissimilarity and "
-          "symbolic coordinates the best-alignment disorder of the translated (symbolic shift) and of the scaled (factors 1/4 and 3) continuum equals the original's.",
-    trusted="z3 (nlsat); MIP stub contract; gamma's invariance then follows from gamma = 1 - observed/expected being homogeneous of degree 0 (C05) - an argument, not a solver result; "
+          "symbolic coordinates the best-alignment disorder of the translated (symbolic shift) and of the scaled (factors 1/4 and 3) continuum equals the original's. "
+          "Gamma level: compute_gamma run twice in one path, every alignment disorder of the second run c (1/4, 3) times the first run's, any precision level in (0,1) or none: "
+          "same number of chance samples, observed and expected disorder multiplied by c, gamma unchanged.",
+    trusted="z3 (nlsat); MIP stub contract; numpy.std homogeneous of degree 1 (stub contract of the gamma-level configurations); gamma's invariance under renaming / translation / time scaling follows from "
+            "the disorders' invariance (every disorder entering compute_gamma is one of those proved invariant) - an argument, not a solver result; "
             "the large continua named in the quantifier (2x60, 3x15, 5x5) are reached only through this compositional argument",
-    bounds=dict(quick="(label bijections include a label renamed to '' and unlabelled units) pipeline: sizes (1,1),(2,1),(2,2),(1,1,1) with all annotator permutations; end-to-end real dissimilarities: translation on (1,1),(2,1), scaling on (1,1)",
+    bounds=dict(quick="(label bijections include a label renamed to '' and unlabelled units) pipeline: sizes (1,1),(2,1),(2,2),(1,1,1) with all annotator permutations; end-to-end real dissimilarities: translation on (1,1),(2,1), scaling on (1,1); gamma under delta-scaling: n_samples 1-2, <= 2 extra samples, c in {1/4, 3}",
                 thorough="+ (2,1,1),(3,1),(1,1,1,1) permutations; end-to-end scaling on (2,1); end-to-end real dissimilarities on (2,2),(1,1,1)"),
     outside="float32 rounding (translation by large offsets loses precision in float32: real arithmetic here); continua beyond the bound",
     stubs=["cvxpy/CBC/GLPK = contract stub", "numba.njit = identity", "np float arrays = object arrays of z3 reals"],
@@ -47,6 +50,11 @@ def configs(tier):
         for p in perms[: (5 if tier == "quick" else 23)]:
             out.append(dict(key=f"pipeline,annotator-permutation,sizes={s},perm={p}", kind="perm", sizes=list(s), perm=list(p), cost=len(common.all_tuples(s)) ** 3))
         out.append(dict(key=f"pipeline,delta-scaling,sizes={s}", kind="dscale", sizes=list(s), cost=len(common.all_tuples(s)) ** 3))
+    # gamma itself under delta-scaling: the whole of compute_gamma run twice in one path, every alignment disorder of the second run being c times
+    # the corresponding one of the first (what the pipeline configurations above establish), with and without a precision level
+    for cf in ("1/4", "3"):
+        for n, prec in ((2, "numeric"), (1, "numeric"), (2, None)) if tier == "quick" else ((2, "numeric"), (1, "numeric"), (3, "numeric"), (2, None)):
+            out.append(dict(key=f"gamma,delta-scale-by-{cf},n_samples={n},precision={prec}", kind="gscale", cfac=cf, n=n, prec=prec, extra=2, cost=400))
     for s in [(1, 1), (2, 1)] + ([(2, 2), (1, 1, 1)] if tier == "thorough" else []):
         for d in ("positional", "combined"):
             out.append(dict(key=f"end-to-end,{d},translate,sizes={s}", kind="e2e", dissim=d, tr="translate", sizes=list(s), cost=3000, split=16))
@@ -278,7 +286,94 @@ def harness(cfg, ns):
         cpstub.reset()
         B = c2.get_best_alignment(E["D"])
         return obls + [Obl(f"best-disorder-invariant-under-{tr}", core.approx(B.disorder, A.disorder, A.disorder), rz)]
-    fn = dict(kernel=h_kernel, labels=h_labels, perm=h_perm, dscale=h_dscale, e2e=h_e2e)[kind]
+    def h_gscale(ctx):
+        from symx import stubs
+        from . import c05
+        al = ns.al
+        cf = Fraction(cfg["cfac"])
+        n = cfg["n"]
+        rec = dict(inits=[], drawn_in_job=[])
+        rng = stubs.RNG(ctx, max_draws=10)
+        rec["rng"] = rng
+        ns.np.random = rng
+        ns.np.std_calls = []
+        ns.np.ceil_max = n + cfg.get("extra", 0)
+        state = dict(run=1, k=0)
+        base, scaled_from = [], {}
+
+        def spy(self, dissimilarity, *a):
+            k = state["k"]
+            state["k"] += 1
+            if state["run"] == 1 or k >= len(base):
+                d = ctx.fresh("obs" if getattr(self, "tag", None) == "input" else "ch!", lo=0)
+                if getattr(self, "tag", None) != "input":
+                    ctx.solver.add(d.e > 0)
+                if state["run"] == 1:
+                    base.append(d)
+            else:
+                d = base[k] * cf
+                scaled_from[id(d)] = (base[k], d)
+            return al.Alignment([], self, disorder=d)
+        names = ("get_best_alignment", "get_best_soft_alignment", "get_fast_alignment")
+        saved = {k: getattr(co.Continuum, k) for k in names}
+        saved_ex = co.ThreadPoolExecutor
+        for k in names:
+            setattr(co.Continuum, k, spy)
+        co.ThreadPoolExecutor = stubs.DeferredExecutor.make(rng=rng)
+        undo_completion = stubs.install_completion_stubs(co)
+        facade_std = ns.np.std
+        sd_first = []
+
+        def std(x, *a, **k):
+            """numpy's std is homogeneous of degree 1: over c times the values of the first run's call it is c times that call's result"""
+            xs = list(x.flat) if hasattr(x, "flat") else list(x)
+            if state["run"] == 2 and sd_first and len(xs) == len(sd_first[0][0]) and \
+                    all(id(v) in scaled_from and scaled_from[id(v)][0] is b for v, b in zip(xs, sd_first[0][0])):
+                r = sd_first[0][1] * cf
+                ns.np.std_calls.append((xs, r))
+                return r
+            r = facade_std(x, *a, **k)
+            if state["run"] == 1:
+                sd_first.append((xs, r))
+            return r
+        ns.np.std = std
+        p = None
+        if cfg["prec"] == "numeric":
+            p = ctx.fresh("precision")
+            ctx.solver.add(p.e > 0, p.e < 1)
+
+        def rz(m):
+            return dict(kind="gscale", c=cfg["cfac"], n=n, prec=(common.frs(mval(m, p)) if p is not None else None),
+                        disorders=[common.frs(mval(m, d)) for d in base])
+        ctx.notes["realize"] = rz
+        try:
+            c = co.Continuum()
+            for a in ("a", "b", "c"):
+                c.add(a, Segment(0, 1), "x")
+            c.tag = "input"
+
+            class D:
+                delta_empty = 1
+
+            class D2:
+                delta_empty = cf
+            r1 = c.compute_gamma(D(), n_samples=n, precision_level=p, sampler=c05.make_stub_sampler(ns, rec))
+            state["run"], state["k"] = 2, 0
+            r2 = c.compute_gamma(D2(), n_samples=n, precision_level=p, sampler=c05.make_stub_sampler(ns, rec))
+        finally:
+            for k, v in saved.items():
+                setattr(co.Continuum, k, v)
+            co.ThreadPoolExecutor = saved_ex
+            undo_completion()
+            del ns.np.std
+        ctx.notes["inputs"] = list(base) + ([p] if p is not None else [])
+        obls = [Obl("gamma,delta-scale: same number of chance samples", len(r1.chance_alignments) == len(r2.chance_alignments), rz),
+                Obl("gamma,delta-scale: observed disorder multiplied by c", core.eq(r2.observed_disorder, r1.observed_disorder * cf), rz)]
+        if len(r1.chance_alignments) == len(r2.chance_alignments):
+            obls.append(Obl("gamma,delta-scale: expected disorder multiplied by c", core.eq(r2.expected_disorder, r1.expected_disorder * cf), rz))
+            obls.append(Obl("gamma,delta-scale: gamma unchanged", core.eq(r2.gamma, r1.gamma), rz))
+        return obls
+    fn = dict(kernel=h_kernel, labels=h_labels, perm=h_perm, dscale=h_dscale, e2e=h_e2e, gscale=h_gscale)[kind]
     if kind in ("kernel", "e2e"):
         def forked_abs(ctx):
             core.ABS_FORKS[0] = True        # |x| resolved by a fork on the sign: the identities become pure rational-function identities
@@ -291,7 +386,34 @@ def harness(cfg, ns):
 
 
 # ---------------------------------------------------------------------------------------------
+def _replay_gscale(case):
+    """seeded gamma of a 3 x 4-unit continuum with delta_empty 1, 4 and 1/4 (powers of two: every float32 disorder scales exactly), with the
+    precision level of the counterexample's kind: same number of samples, same gamma, disorders multiplied by c"""
+    import numpy as np
+    import pygamma_agreement as pa
+    from pyannote.core import Segment
+    c = pa.Continuum()
+    for i, a in enumerate(("ann", "Bob", "cy")):
+        for j in range(4):
+            c.add(a, Segment(10 * j + 1.5 * i, 10 * j + 5 + i + (j % 2)), "xyz"[(i + j) % 3])
+    bad = []
+    for prec, n in ((0.05, 8), (0.02, 5), (None, 6)) if case.get("prec") is not None else ((None, 6), (0.05, 8)):
+        res = {}
+        for de in (1.0, 4.0, 0.25):
+            np.random.seed(4242)
+            r = c.compute_gamma(pa.CombinedCategoricalDissimilarity(delta_empty=de), n_samples=n, precision_level=prec)
+            res[de] = (r.n_samples, float(r.gamma), float(r.observed_disorder), float(r.expected_disorder))
+        for de in (4.0, 0.25):
+            if res[de][0] != res[1.0][0]:
+                bad.append(f"precision_level={prec}, n_samples={n}: {res[de][0]} chance samples with delta_empty={de}, {res[1.0][0]} with delta_empty=1 (same seed)")
+            elif abs(res[de][1] - res[1.0][1]) > 1e-5 or abs(res[de][2] - de * res[1.0][2]) > 1e-5 * de or abs(res[de][3] - de * res[1.0][3]) > 1e-5 * de:
+                bad.append(f"precision_level={prec}: (gamma, observed, expected) = {res[de][1:]} with delta_empty={de}, {res[1.0][1:]} with delta_empty=1")
+    return dict(reproduced=bool(bad), detail="; ".join(bad[:3]))
+
+
 def replay(case):
+    if case.get("kind") == "gscale":
+        return _replay_gscale(case)
     import numpy as np
     import pygamma_agreement as pa
     from pyannote.core import Segment
